@@ -480,6 +480,9 @@ func (i *IPv6HopByHop) SerializeTo(b gopacket.SerializeBuffer, opts gopacket.Ser
 
 	o := make([]*ipv6HeaderTLVOption, 0, len(i.Options))
 	for _, v := range i.Options {
+		if v == nil {
+			return errors.New("IPv6HopByHop: nil option")
+		}
 		o = append(o, (*ipv6HeaderTLVOption)(v))
 	}
 
@@ -720,6 +723,9 @@ func (i *IPv6Destination) SerializeTo(b gopacket.SerializeBuffer, opts gopacket.
 
 	o := make([]*ipv6HeaderTLVOption, 0, len(i.Options))
 	for _, v := range i.Options {
+		if v == nil {
+			return errors.New("IPv6Destination: nil option")
+		}
 		o = append(o, (*ipv6HeaderTLVOption)(v))
 	}
 
